@@ -86,6 +86,8 @@ func mayBeNil(node Node) bool {
 		return n.NilSafe || mayBeNil(n.Node)
 	case *IndexNode:
 		return mayBeNil(n.Node)
+	case *ConditionalNode:
+		return mayBeNil(n.Exp1) || mayBeNil(n.Exp2)
 	}
 	return false
 }
